@@ -1,4 +1,5 @@
 import BddProofs.CacheTrace
+import BddProofs.HashTwin
 /-! # C18 — the operation cache never returns a value stored under a different key
 
 Model: `P.Cache` (`BddModel/Cache.lean`), any key type with any `MyHash` (so forced collisions,
@@ -38,8 +39,14 @@ theorem C18_statistics (bits : Nat) (hist : List (Ev κ ν)) :
 example : ((run (Cache.new 1) demoHist).get ((1, 0) : UInt64 × UInt64)).2 = some 9 ∧
     ((run (Cache.new 1) demoHist).get ((0, 0) : UInt64 × UInt64)).2 = none := by decide
 
+/-- the 64-bit pairing hash is **not** an identity of keys — two different ITE keys with equal hash,
+machine-checked — so `get` must (and does, `C18_never_another_key`) compare the stored key itself -/
+theorem C18_hash_is_not_identity : ∃ k₁ k₂ : OpKey, MyHash.hash k₁ = MyHash.hash k₂ ∧ k₁ ≠ k₂ :=
+  ⟨_, _, hash_not_injective⟩
+
 end P
 #print axioms P.C18_lookup_after_history
 #print axioms P.C18_never_another_key
 #print axioms P.C18_clear_forgets
 #print axioms P.C18_statistics
+#print axioms P.C18_hash_is_not_identity
